@@ -23,6 +23,8 @@ func runC05(c *Check, tier string) {
 	ruleR18b(c, "R05e")
 	// the post-execution output checks that guard the completion really run, every one, every time
 	ruleR14d(c, "R05f")
+	// a tainted target whose forced execution failed stays tainted (it is attempted again next time)
+	ruleR13b(c, analyseGate(c, "R05g"), "R05g")
 }
 
 // R05a: result written only on success
